@@ -319,6 +319,7 @@ func (c *Compiler) Compile(node parser.Node) error {
 		}
 	case *parser.Ident:
 		symbol, _, ok := c.symbolTable.Resolve(node.Name, false)
+		verifSym("Resolve", c.symbolTable, node.Name, symbol, -1, ok)
 		if !ok {
 			return c.errorf(node, "unresolved reference '%s'", node.Name)
 		}
@@ -406,6 +407,7 @@ func (c *Compiler) Compile(node parser.Node) error {
 
 			// function arguments is not assigned directly.
 			s.LocalAssigned = true
+			verifSym("Mark", c.symbolTable, s.Name, s, 0, true)
 		}
 
 		if err := c.Compile(node.Body); err != nil {
@@ -417,6 +419,7 @@ func (c *Compiler) Compile(node parser.Node) error {
 
 		freeSymbols := c.symbolTable.FreeSymbols()
 		numLocals := c.symbolTable.MaxSymbols()
+		verifSymEnd(c.symbolTable, freeSymbols, numLocals)
 		instructions, sourceMap := c.leaveScope()
 
 		for _, s := range freeSymbols {
@@ -465,6 +468,7 @@ func (c *Compiler) Compile(node parser.Node) error {
 					c.emit(node, parser.OpNull)
 					c.emit(node, parser.OpDefineLocal, s.Index)
 					s.LocalAssigned = true
+					verifSym("Mark", c.symbolTable, s.Name, s, 0, true)
 				}
 				c.emit(node, parser.OpGetLocalPtr, s.Index)
 			case ScopeFree:
@@ -692,6 +696,7 @@ func (c *Compiler) compileAssign(
 
 	_, isFunc := rhs[0].(*parser.FuncLit)
 	symbol, depth, exists := c.symbolTable.Resolve(ident, false)
+	verifSym("Resolve", c.symbolTable, ident, symbol, depth, exists)
 	if op == token.Define {
 		if depth == 0 && exists {
 			return c.errorf(node, "'%s' redeclared in this block", ident)
@@ -775,6 +780,7 @@ func (c *Compiler) compileAssign(
 
 		// mark the symbol as local-assigned
 		symbol.LocalAssigned = true
+		verifSym("Mark", c.symbolTable, ident, symbol, 0, true)
 	case ScopeFree:
 		if numSel > 0 {
 			c.emit(node, parser.OpSetSelFree, symbol.Index, numSel)
@@ -938,6 +944,7 @@ func (c *Compiler) compileForInStmt(stmt *parser.ForInStmt) error {
 			c.emit(stmt, parser.OpSetGlobal, keySymbol.Index)
 		} else {
 			keySymbol.LocalAssigned = true
+			verifSym("Mark", c.symbolTable, keySymbol.Name, keySymbol, 0, true)
 			c.emit(stmt, parser.OpDefineLocal, keySymbol.Index)
 		}
 	}
@@ -955,6 +962,7 @@ func (c *Compiler) compileForInStmt(stmt *parser.ForInStmt) error {
 			c.emit(stmt, parser.OpSetGlobal, valueSymbol.Index)
 		} else {
 			valueSymbol.LocalAssigned = true
+			verifSym("Mark", c.symbolTable, valueSymbol.Name, valueSymbol, 0, true)
 			c.emit(stmt, parser.OpDefineLocal, valueSymbol.Index)
 		}
 	}
